@@ -16,3 +16,13 @@ theorem encoder_window_shapes_match : ShapeGen.allOk = true := by decide
 theorem encoder_window_shapes_no_errors : ShapeGen.extractionErrors = 0 := by decide
 
 end LzmaVerif.Props.Shapes
+
+namespace LzmaVerif.Props.Shapes
+
+/-- C10 ("never more worker threads than the requested maximum, clamped to 1-256"): in all four multi-threaded types
+    the requested count is clamped to 1..=256, the struct field holds the clamped value, and a further worker is
+    spawned only at the one place guarded by `spawned_workers < self.max_workers` (the bound the MT model's
+    `maxWorkers` parameter stands for). -/
+theorem mt_worker_cap_shapes_match : ShapeGen.mtAllOk = true := by decide
+
+end LzmaVerif.Props.Shapes
